@@ -37,3 +37,12 @@ impl VxDisplay for String {
 impl VxDisplay for &str {
     open spec fn display_spec(&self) -> Seq<char> { self@ }
 }
+impl VxDisplay for char {
+    open spec fn display_spec(&self) -> Seq<char> { seq![*self] }
+}
+
+/// R-method-map: `x.to_string()` => `vx_to_string(&x)` (ToString through Display)
+#[verifier::external_body]
+pub fn vx_to_string<T: VxDisplay>(x: &T) -> (r: String)
+    ensures r@ == x.display_spec()
+{ unimplemented!() }
